@@ -250,11 +250,15 @@ pub fn unplace(v: &Rc<RV>, p: Place) -> Rc<RV> {
 pub struct Builder {
     finals: HashMap<Rc<RT>, Arc<Final>>,
     pub merkle: Merkle,
+    pub fam: Fam,
 }
 
 impl Builder {
     pub fn new() -> Self {
-        Builder { finals: HashMap::new(), merkle: Merkle::default() }
+        Builder { finals: HashMap::new(), merkle: Merkle::default(), fam: Fam::Core }
+    }
+    pub fn with_family(fam: Fam) -> Self {
+        Builder { finals: HashMap::new(), merkle: Merkle::default(), fam }
     }
     pub fn fin(&mut self, t: &Rc<RT>) -> Arc<Final> {
         if let Some(f) = self.finals.get(t) {
@@ -290,7 +294,7 @@ impl Builder {
             Tm::Witness(v) => CNode::witness(ctx, Some(v.to_value(&t.tgt))),
             Tm::Word(n, v) => CNode::const_word(ctx, word_of(*n, *v)),
             Tm::Fail(x) => CNode::fail(ctx, FailEntropy::from_byte_array([*x; 64])),
-            Tm::Jet(name) => CNode::jet(ctx, Fam::Core.jet(Fam::Core.find(name)).as_ref()),
+            Tm::Jet(name) => CNode::jet(ctx, self.fam.jet(self.fam.find(name)).as_ref()),
             Tm::Disconnect(a, b) => {
                 let (x, y) = (self.build(ctx, a)?, self.build(ctx, b)?);
                 CNode::disconnect(&x, &Some(y)).map_err(e)?
@@ -319,7 +323,7 @@ impl Builder {
                 let bits: Vec<bool> = (0..(1usize << n)).rev().map(|b| v >> b & 1 == 1).collect();
                 self.merkle.cmr_word(*n as usize, &bits)
             }
-            Tm::Jet(name) => Fam::Core.jet(Fam::Core.find(name)).cmr().to_byte_array(),
+            Tm::Jet(name) => self.fam.jet(self.fam.find(name)).cmr().to_byte_array(),
             Tm::InjL(s) => {
                 let c = self.cmr(s);
                 self.merkle.cmr_unary("injl", &c)
